@@ -1337,6 +1337,61 @@ int main(int argc, char** argv) {
                 for (auto& c2 : cs.contours) { o += " |"; for (auto& v : c2) o += " " + std::to_string((long)std::lround(v.x())); }
                 out(o);
             }
+            else if (c == "dcgrid") {
+                // dcgrid h level lx ly lz ux uy uz workers : dual contouring without merging on a 2^level grid, with the
+                // filled lattice points, for the correspondence with Render/DCGrid.v
+                Tree tr = H(t[1]);
+                int level = std::stoi(t[2]);
+                Eigen::Vector3d lo(of_hex32(t[3]), of_hex32(t[4]), of_hex32(t[5])), hi(of_hex32(t[6]), of_hex32(t[7]), of_hex32(t[8]));
+                BRepSettings st;
+                st.alg = DUAL_CONTOURING; st.workers = (unsigned)std::stoul(t[9]); st.max_err = -1;
+                st.min_feature = (hi - lo).minCoeff() / (1 << level) * 1.0001;
+                Region<3> rg(lo, hi);
+                int got_level = rg.withResolution(st.min_feature).level;
+                auto mesh = Mesh::render(tr, rg, st);
+                Evaluator ev(tr);
+                const int n = 1 << level;
+                std::ostringstream o;
+                o << "DG level=" << got_level << " tris=" << (mesh ? mesh->branes.size() : 0) << " verts=" << (mesh ? mesh->verts.size() - 1 : 0)
+                  << " closed=" << (mesh ? mesh_closed(*mesh) : 0) << " zero=";
+                int zeros = 0; std::string pts;
+                for (int i = 0; i <= n; ++i) for (int j = 0; j <= n; ++j) for (int k = 0; k <= n; ++k) {
+                    Eigen::Vector3d p(lo.x() + (hi.x() - lo.x()) * i / n, lo.y() + (hi.y() - lo.y()) * j / n, lo.z() + (hi.z() - lo.z()) * k / n);
+                    float v = ev.value(p.cast<float>());
+                    if (v == 0) ++zeros;
+                    if (v < 0) pts += " " + std::to_string(i) + "," + std::to_string(j) + "," + std::to_string(k);
+                }
+                o << zeros << " filled=" << pts;
+                out(o.str());
+            }
+            else if (c == "contourgrid") {
+                // contourgrid h level lx ly ux uy z workers : the 2D analogue, for Render/DCGrid2.v
+                Tree tr = H(t[1]);
+                int level = std::stoi(t[2]);
+                Eigen::Vector2d lo(of_hex32(t[3]), of_hex32(t[4])), hi(of_hex32(t[5]), of_hex32(t[6]));
+                float zz = of_hex32(t[7]);
+                BRepSettings st;
+                st.workers = (unsigned)std::stoul(t[8]); st.max_err = -1;
+                st.min_feature = (hi - lo).minCoeff() / (1 << level) * 1.0001;
+                Region<2> rg(lo, hi, Region<2>::Perp(zz));
+                int got_level = rg.withResolution(st.min_feature).level;
+                auto cs = Contours::render(tr, rg, st);
+                Evaluator ev(tr);
+                const int n = 1 << level;
+                long segs = 0, open = 0;
+                if (cs) for (auto& c2 : cs->contours) { segs += (long)c2.size() - 1; if (c2.size() < 2 || c2.front() != c2.back()) ++open; }
+                std::ostringstream o;
+                o << "CG level=" << got_level << " contours=" << (cs ? cs->contours.size() : 0) << " segs=" << segs << " open=" << open << " zero=";
+                int zeros = 0; std::string pts;
+                for (int i = 0; i <= n; ++i) for (int j = 0; j <= n; ++j) {
+                    Eigen::Vector3f p((float)(lo.x() + (hi.x() - lo.x()) * i / n), (float)(lo.y() + (hi.y() - lo.y()) * j / n), zz);
+                    float v = ev.value(p);
+                    if (v == 0) ++zeros;
+                    if (v < 0) pts += " " + std::to_string(i) + "," + std::to_string(j);
+                }
+                o << zeros << " filled=" << pts;
+                out(o.str());
+            }
             else if (c == "ivcheck") {
                 // ivcheck h lx ly lz ux uy uz exact(0/1) : C02's statement on one expression and box
                 Tree tr = H(t[1]);
